@@ -34,6 +34,7 @@ def make_tables(rnd, wd):
     base = pd.DataFrame({'id': list(range(n)),
                          'x': [rnd.choice([-2.5, 0.0, 1.25, 3.5, 10.0]) for _ in range(n)],
                          'y': [rnd.choice([40.0, 55.5, 80.0, 100.0, 200.0]) for _ in range(n)],
+                         'k': [bool(rnd.getrandbits(1)) for _ in range(n)],
                          's': [rnd.choice(['a', 'bc', 'é☃', 'x y', 'q1']) for _ in range(n)],
                          'd': pd.to_datetime([pd.Timestamp('2020-01-01') + pd.Timedelta(days=rnd.randint(0, 20)) for _ in range(n)])})
     pert = base.copy()
@@ -41,6 +42,8 @@ def make_tables(rnd, wd):
     pert.loc[1, 's'] = 'NEW-VALUE'
     # beyond the discovered maximum, but within the tolerance of --epsilon 0.01: the verdict depends on epsilon
     pert.loc[2, 'y'] = float(base['y'].max()) * 1.005
+    # a boolean field delivered as 0 / 1 integers: the library repairs field types before verifying, on every input format
+    pert['k'] = pert['k'].astype('int64')
     return base, pert
 
 
@@ -113,7 +116,10 @@ def run(chk):
     events, detail = [], {}
     tid = 0
     small = [r for r in rows if r['cmd'] != 'detect']
-    sample = rows if thorough else small + small + rnd.sample([r for r in rows if r['cmd'] == 'detect'], 220)
+    PAIRS = [{'all', 'fields'}, {'rex', 'norex'}, {'per-constraint', 'no-per-constraint'}, {'output-fields', 'no-output-fields'}]
+    contradictory_detect = [r for r in rows if r['cmd'] == 'detect' and len(r['flags']) <= 3 and any(p <= set(r['flags']) for p in PAIRS)]
+    sample = rows if thorough else (small + small + rnd.sample([r for r in rows if r['cmd'] == 'detect'], 180)
+                                    + rnd.sample(contradictory_detect, min(40, len(contradictory_detect))))
     for r in sample:
         cmd, flags, kw = r['cmd'], sorted(r['flags']), r['kw']
         d = os.path.join(root, 'c%d' % tid)
